@@ -116,6 +116,17 @@ func scalarBytesPool(r *rng, nRand int) [][]byte {
 		v := new(big.Int).Sub(new(big.Int).Lsh(big.NewInt(1), w), big.NewInt(1))
 		out = append(out, v.Bytes(), new(big.Int).Lsh(v, 255-w).Bytes())
 	}
+	// scalars whose GLV decomposition is degenerate: k = +-t*lambda (k1 = 0, k2 = +-t), k = t (k2 = 0), and
+	// neighbours; in 32-byte, zero-padded and k+N / k+3N (33-byte) encodings
+	for _, t := range []*big.Int{big.NewInt(1), big.NewInt(2), big.NewInt(3), big.NewInt(255), new(big.Int).SetBytes(r.bytes(8)), new(big.Int).SetBytes(r.bytes(15)), new(big.Int).Lsh(big.NewInt(1), 126)} {
+		for _, sgn := range []int64{1, -1} {
+			k := modN(new(big.Int).Mul(new(big.Int).Mul(t, lambda), big.NewInt(sgn)))
+			out = append(out, pad32(k.Bytes()), k.Bytes(), append([]byte{0, 0, 0, 0, 0, 0, 0, 0}, pad32(k.Bytes())...))
+			out = append(out, new(big.Int).Add(k, curveN).Bytes(), new(big.Int).Add(k, new(big.Int).Mul(curveN, big.NewInt(3))).Bytes())
+			out = append(out, pad32(modN(new(big.Int).Add(k, big.NewInt(1))).Bytes()), pad32(modN(new(big.Int).Sub(k, big.NewInt(1))).Bytes()))
+		}
+		out = append(out, pad32(t.Bytes()))
+	}
 	// table rows hit with byte 0 / 255
 	for row := 0; row < 32; row += 5 {
 		b := r.bytes(32)
@@ -375,6 +386,19 @@ func genC02(e *emitter, r *rng, thorough bool) {
 			e.emit("sign", "sign "+nhx(d)+" "+hx(h))
 		}
 	}
+	// volume: rare shapes of (r,s) (short s with a high leading byte, s just above/below N/2, ...) occur
+	// once in a few hundred signatures
+	nvol := 4000
+	if thorough {
+		nvol = 40000
+	}
+	for i := 0; i < nvol; i++ {
+		d := modN(new(big.Int).SetBytes(r.bytes(32)))
+		if d.Sign() == 0 {
+			d.SetInt64(3)
+		}
+		e.emit("sign.volume", "sign "+nhx(d)+" "+hx(r.bytes(32)))
+	}
 	// known-answer vectors (RFC 6979 style for secp256k1, widely published)
 	e.emit("sign.kat", "sign 1 "+hx(crypto.Sha256([]byte("Satoshi Nakamoto"))))
 	e.emit("sign.kat", "sign 1 "+hx(crypto.Sha256([]byte("All those moments will be lost in time, like tears in rain. Time to die..."))))
@@ -506,6 +530,25 @@ func genC03(e *emitter, r *rng, thorough bool) {
 		emitV("cons.rx>=N.twin", qq, hh, rr, new(big.Int).Sub(curveN, ss))
 		emitV("cons.rx>=N.r+N", qq, hh, xR, ss) // r itself out of range: must be rejected
 	}
+	// u1 = 0, u2 = 1: hash = 0 and r = s = x(Q) mod N is a valid signature for ANY key Q (R = Q itself);
+	// with ordinary keys and with keys whose X lies in [N, P)
+	zero32 := make([]byte, 32)
+	for _, d := range keys[:4] {
+		q := mulG(d)
+		rr := modN(q.x)
+		if rr.Sign() != 0 {
+			emitV("cons.u1=0,u2=1", q, zero32, rr, rr)
+			emitV("cons.u1=0,u2=1.hashN", q, pad32(curveN.Bytes()), rr, rr)
+		}
+	}
+	for t := int64(1); t < 60; t++ {
+		xQ := new(big.Int).Add(curveN, big.NewInt(t))
+		Q, err := bec.ParsePubKey(append([]byte{2}, pad32(xQ.Bytes())...), bec.S256())
+		if err != nil {
+			continue
+		}
+		emitV("cons.u1=0,u2=1.X>=N", pt{Q.X, Q.Y}, zero32, big.NewInt(t), big.NewInt(t))
+	}
 	// (r' = r + N with r tiny and an unrelated key)
 	q := mulG(big.NewInt(7))
 	emitV("alias.tiny", q, r.bytes(32), new(big.Int).Add(curveN, one), one)
@@ -602,6 +645,23 @@ func genC12(e *emitter, r *rng, thorough bool) {
 		e.emit("recover.infinity", "compact.recover "+hx(mk(hb, R.x, ss))+" "+hx(hh))
 		e.emit("recover.infinity-c", "compact.recover "+hx(mk(hb+4, R.x, ss))+" "+hx(hh))
 		e.emit("recover.near-infinity", "compact.recover "+hx(mk(hb^1^0, R.x, modN(new(big.Int).Add(ss, one))))+" "+hx(hh))
+	}
+	// over-long inputs that still LOOK like r and s: zero bytes inserted between r and s, or appended
+	for _, d := range keys[:3] {
+		hh := r.bytes(32)
+		out, err := bec.SignCompact(bec.S256(), privOf(d), hh, false)
+		if err != nil {
+			continue
+		}
+		for _, z := range []int{1, 2, 8, 31, 32, 33} {
+			x := append(append(append([]byte{}, out[:33]...), make([]byte, z)...), out[33:]...)
+			e.emit("recover.len-zeros-mid", "compact.recover "+hx(x)+" "+hx(hh))
+			y := append(append([]byte{}, out...), make([]byte, z)...)
+			e.emit("recover.len-zeros-end", "compact.recover "+hx(y)+" "+hx(hh))
+			w := append(append([]byte{out[0]}, make([]byte, z)...), out[1:]...)
+			e.emit("recover.len-zeros-front", "compact.recover "+hx(w)+" "+hx(hh))
+		}
+		e.emit("recover.len-short", "compact.recover "+hx(out[:64])+" "+hx(hh))
 	}
 	// all other lengths
 	for l := 0; l <= 130; l++ {
